@@ -327,6 +327,36 @@ impl Machine {
         Ok(info)
     }
 
+    /// log2 of the size of the largest object reachable from the stack or the memo when shared
+    /// children are unfolded once per path (a tree walk without memoisation visits that many nodes);
+    /// only meaningful with `track_graph`
+    pub fn unfolded_log2(&self) -> u32 {
+        fn size(id: u32, ch: &HashMap<u32, Vec<u32>>, memo: &mut HashMap<u32, f64>, depth: u32) -> f64 {
+            if let Some(v) = memo.get(&id) {
+                return *v;
+            }
+            if depth > 20_000 {
+                return 1.0;
+            }
+            let mut s = 1.0f64;
+            if let Some(c) = ch.get(&id) {
+                for k in c {
+                    s += size(*k, ch, memo, depth + 1);
+                }
+            }
+            memo.insert(id, s);
+            s
+        }
+        let mut memo = HashMap::new();
+        let mut best = 1.0f64;
+        for s in self.stack.iter().chain(self.memo.values()) {
+            if !s.is_mark() {
+                best = best.max(size(s.id, &self.children, &mut memo, 0));
+            }
+        }
+        best.log2() as u32
+    }
+
     /// after STOP
     pub fn finish(&self) -> Result<(), DisError> {
         if !self.stack.is_empty() {
